@@ -1,5 +1,8 @@
 import TantivyModel.Proofs.DocSet.Basic
 import TantivyModel.Proofs.DocSet.Default
+import TantivyModel.Proofs.DocSet.ReqOpt
+import TantivyModel.Proofs.DocSet.Exclude
+import TantivyModel.Proofs.DocSet.SimpleUnion
 import TantivyModel.Model.DocSet.Tree
 /-!
 # C13 — every DocSet is one sorted sequence under any mix of advance and seek
@@ -94,6 +97,132 @@ theorem C13_vec_end_sticky (score : Nat) (prog : List Op)
     implRun Vec.ds (Vec.init [] score) prog = specRun ⟨[], none⟩ prog :=
   (C13_end_sticky Vec.ds Vec.V _ C13_vec_lawful prog _ ⟨rfl, Sorted.nil⟩ hlegal).1
 
+/-! ### combinators over abstract children (`Lawful` children ⇒ `Lawful` combinator) -/
+
+section combinators
+variable {σ τ : Type} {A : DS σ} {B : DS τ}
+  {VA : σ → List Nat → Prop} {WA : σ → Nat → List Nat → Prop}
+  {VB : τ → List Nat → Prop} {WB : τ → Nat → List Nat → Prop}
+
+/-- RequiredOptionalScorer: the sequence of the required child, whatever the optional child is -/
+theorem C13_reqopt_lawful (hA : Lawful A VA WA) :
+    Lawful (ReqOpt.ds A B) (ReqOpt.V VA) (ReqOpt.W (τ := τ) WA) := ReqOpt.lawful hA
+
+theorem C13_reqopt_program_equiv (hA : Lawful A VA WA) (s : ReqOpt.State σ τ) (l : List Nat)
+    (hV : VA s.req l) (prog : List Op) (hlegal : legalProg ⟨l, none⟩ prog = true) :
+    implRun (ReqOpt.ds A B) s prog = specRun ⟨l, none⟩ prog :=
+  C13_program_equiv _ _ _ (ReqOpt.lawful hA) prog s l hV hlegal
+
+theorem C13_reqopt_end_sticky (hA : Lawful A VA WA) (s : ReqOpt.State σ τ) (hV : VA s.req [])
+    (prog : List Op) (hlegal : legalProg ⟨[], none⟩ prog = true) :
+    implRun (ReqOpt.ds A B) s prog = specRun ⟨[], none⟩ prog :=
+  (C13_end_sticky _ _ _ (ReqOpt.lawful hA) prog s hV hlegal).1
+
+/-- Exclude (single exclusion set or a vector of them): underlying minus all exclusion sets -/
+theorem C13_exclude_lawful (hA : Lawful A VA WA) (hB : Lawful B VB WB) :
+    Lawful (Exclude.ds A B) (Exclude.V VA VB WB) (defaultW (Exclude.V VA VB WB)) :=
+  Exclude.lawful hA hB
+
+/-- from construction: `Exclude::new(u, es)` over valid children enumerates exactly the documents
+of `u` that are in none of the exclusion sets, under every legal call program -/
+theorem C13_exclude_program_equiv (hA : Lawful A VA WA) (hB : Lawful B VB WB) (u : σ)
+    (es : List τ) (lu : List Nat) (les : List (List Nat)) (hu : VA u lu) (hes : All2 VB es les)
+    (prog : List Op) (hlegal : legalProg ⟨lu.filter (Exclude.ok les), none⟩ prog = true) :
+    implRun (Exclude.ds A B) (Exclude.new A B u es) prog
+      = specRun ⟨lu.filter (Exclude.ok les), none⟩ prog :=
+  C13_program_equiv _ _ _ (Exclude.lawful hA hB) prog _ _ (Exclude.new_V hA hB hu hes) hlegal
+
+theorem C13_exclude_end_sticky (hA : Lawful A VA WA) (hB : Lawful B VB WB) (s : Exclude.State σ τ)
+    (hV : Exclude.V VA VB WB s []) (prog : List Op) (hlegal : legalProg ⟨[], none⟩ prog = true) :
+    implRun (Exclude.ds A B) s prog = specRun ⟨[], none⟩ prog :=
+  (C13_end_sticky _ _ _ (Exclude.lawful hA hB) prog s hV hlegal).1
+
+/-- SimpleUnion: the sorted union of the children -/
+theorem C13_simple_union_lawful (hA : Lawful A VA WA) :
+    Lawful (SimpleUnion.ds A) (SimpleUnion.V VA) (defaultW (SimpleUnion.V VA)) :=
+  SimpleUnion.lawful hA
+
+theorem C13_simple_union_program_equiv (hA : Lawful A VA WA) (cs : List σ) (ls : List (List Nat))
+    (l : List Nat) (hcs : All2 VA cs ls) (hl : SimpleUnion.IsUnion l ls)
+    (prog : List Op) (hlegal : legalProg ⟨l, none⟩ prog = true) :
+    implRun (SimpleUnion.ds A) (SimpleUnion.build A cs) prog = specRun ⟨l, none⟩ prog :=
+  C13_program_equiv _ _ _ (SimpleUnion.lawful hA) prog _ _ (SimpleUnion.build_V hA hcs hl) hlegal
+
+theorem C13_simple_union_end_sticky (hA : Lawful A VA WA) (s : SimpleUnion.State σ)
+    (hV : SimpleUnion.V VA s []) (prog : List Op) (hlegal : legalProg ⟨[], none⟩ prog = true) :
+    implRun (SimpleUnion.ds A) s prog = specRun ⟨[], none⟩ prog :=
+  (C13_end_sticky _ _ _ (SimpleUnion.lawful hA) prog s hV hlegal).1
+
+/-- score path independence of RequiredOptionalScorer (SumCombiner): with an empty cache (every
+move empties it) the score at the current document `d` is `score_req(d) + [d ∈ opt] score_opt(d)`,
+a function of `d` alone, for every state the two children were brought to by whatever calls -/
+theorem C13_reqopt_score_path_independent (hB : Lawful B VB WB) (fA fB : Nat → Nat)
+    (hfA : ∀ {r}, (A.score r).1 = fA (A.doc r)) (hfB : ∀ {o}, (B.score o).1 = fB (B.doc o))
+    (s : ReqOpt.State σ τ) (lo : List Nat) (hVO : VB s.opt lo) (hc : s.cache = none)
+    (hsum : s.sum = true) (hd : A.doc s.req < TERMINATED) :
+    (ReqOpt.score A B s).1 = fA (A.doc s.req) + (if A.doc s.req ∈ lo then fB (A.doc s.req) else 0) :=
+  ReqOpt.score_value hB hfA hfB hVO hc hsum hd
+
+end combinators
+
+/-! ### Intersection and BufferedUnionScorer — open refinement statements
+
+OPEN (models tied by the correspondence run only; proofs not done):
+
+  theorem C13_intersection_lawful (hA : Lawful A VA WA) :
+      Lawful (Inter.ds A) (Inter.V VA WA) (Inter.W VA WA)
+  -- Inter.V s l : left/right/others valid for ll/lr/los with equal heads (or left exhausted and the
+  --   others valid-or-in-danger), l = ll ∩ lr ∩ ⋂ los.
+  -- Inter.W s t l : the danger zone Intersection::seek_danger itself leaves (left missed `t`, or
+  --   left found and right/other missed); `wseek` is `go_to_first_doc` over children that may be
+  --   in their own danger zone (uses the children's `wdoc`/`wseek`).
+  -- proof plan for `advance`: loop invariant "ll ∩ lr ∩ ⋂ los restricted to ≥ candidate = l.tail",
+  --   progress from `t < b` of the children's `SDPost`, no loss from its upper bound
+  --   `b ≤ next(child)`, which the contract promises for `doc(child) ≤ t` / `t0 ≤ t` — both hold
+  --   because the candidate is never below any child's floor.
+  theorem C13_intersection_count_partial : … (D.count s).1 = l.length
+  -- the state after the dense count is NOT valid for [] (C13_intersection_dense_count_end_counterexample)
+  theorem C13_intersection_order_irrelevant : the abstraction ll ∩ lr ∩ ⋂ los is invariant under
+  --   permutation of the children, hence (given C13_intersection_lawful) so are all observations.
+
+  theorem C13_union_lawful_partial (hA : Lawful A VA WA) (H : Nat) (hH : 0 < H ∧ 64 ∣ H)
+      (hroot : seek_danger targets are never below window_start)   -- excludes finding 5
+      : Lawful' (BUnion.ds A H) (BUnion.V VA H) (BUnion.W VA H)
+  -- Lawful' = Lawful without "the state after count is valid for []" (finding 3) ;
+  -- BUnion.V s l : children valid for ls, every child doc ≥ ws + H, window = deltas of the members
+  --   of the original children in (doc, ws + H), l = doc :: window docs ++ sorted union of ls.
+  theorem C13_union_score_path_independent_partial : for programs without fill_buffer
+  --   (findings 1, 2: C13_union_fill_buffer_*_counterexample), score at d = Σ child scores at d.
+-/
+
+/-! ### Disjunction (minimum-should-match heap) — refinement statement
+
+FULL STATEMENT (open; the model `Model/DocSet/Disjunction.lean` is tied to
+`tantivy::query::disjunction::Disjunction` by the correspondence run, its `Lawful` proof is not
+done):
+
+  theorem C13_disjunction_lawful (hA : Lawful A VA WA) (k : Nat) (hk : 2 ≤ k) :
+      Lawful (Disj.ds A) (Disj.V VA k) (defaultW (Disj.V VA k))
+  -- where `Disj.V VA k s l` : the scorers in the heap are valid for lists `ls`, the scorers that
+  -- matched `currentDoc` have been advanced past it, and
+  -- `l = currentDoc :: (documents > currentDoc occurring in at least k of the ls)`
+
+Only `doc`/`advance` are overridden, so by `C13_default_lawful` the statement reduces to
+`Core Disj.doc (Disj.advance A) (defaultSeek …) (Disj.V VA k)`. Checked instances (tests of the
+model on concrete inputs, not a proof): -/
+
+theorem C13_disjunction_refines_instance :
+    implRun (Disj.ds Vec.ds)
+        (Disj.new Vec.ds true 2 [Vec.init [1, 5, 9] 2, Vec.init [5, 7, 9] 3, Vec.init [9, 11] 1])
+        [.doc, .advance, .seekDanger 10, .seekDanger TERMINATED]
+      = specRun ⟨[5, 9], none⟩ [.doc, .advance, .seekDanger 10, .seekDanger TERMINATED]
+    ∧ implRun (Disj.ds Vec.ds)
+        (Disj.new Vec.ds true 2 [Vec.init [1, 5, 9] 2, Vec.init [5, 7, 9] 3, Vec.init [9, 11] 1])
+        [.seek 6, .fillBuffer, .doc]
+      = specRun ⟨[5, 9], none⟩ [.seek 6, .fillBuffer, .doc] := by
+  decide +kernel
+
+
 /-! ## deviations of the real code, mirrored by the model (each reproduced by the harness
 against the real code and recorded in KNOWN_FINDINGS.txt)
 
@@ -140,7 +269,8 @@ children only: the bound overshoots its own buffered documents (HORIZON = 64 ins
 theorem C13_union_seek_danger_below_window_counterexample :
     let D := BUnion.ds Vec.ds 64
     let s0 := D.advance (BUnion.build Vec.ds 64 false [Vec.init [10, 500, 510] 1, Vec.init [2000] 1])
-    D.doc s0 = 500 ∧ (D.seekDanger 460 s0).1 = .lower 2000 := by
+    Gen.UNION_SEEK_DANGER_BELOW_WINDOW_BUFFERED = 0 →
+      D.doc s0 = 500 ∧ (D.seekDanger 460 s0).1 = .lower 2000 := by
   decide +kernel
 
 /-! ## non-vacuity -/
@@ -155,6 +285,8 @@ example : legalProg ⟨[1, 5, 9], none⟩
   decide
 example : specRun ⟨[1, 5, 9], none⟩ [.advance, .seek 6, .seekDanger 9, .fillBuffer, .doc]
     = [.doc 5, .doc 9, .sd true, .buf [9], .doc TERMINATED] := by decide
+example : All2 Vec.V [Vec.init [] 1] [[]] := All2.cons ⟨rfl, Sorted.nil⟩ All2.nil
+example : Exclude.ok [[5, 7], [9]] 1 = true ∧ Exclude.ok [[5, 7], [9]] 9 = false := by decide
 example : Vec.V (Vec.init [1, 5, 9] 2) [1, 5, 9] := ⟨rfl, by
   refine ⟨by decide, ?_⟩
   intro x hx
